@@ -146,6 +146,8 @@ def _codec(ctx, prop):
                 return ("id-parse-inconsistent:" + tag, "IDB58Decode / IDFromBytes / ParsePeerID disagree")
             if o["extract"] != e["extract"]:
                 return ("id-extract:" + tag, "ExtractPublicKey gave %s, spec says %s" % (o["extract"], e["extract"]))
+            if o["matches"] != e["matches"]:
+                return ("id-matches-bytes:" + tag, "MatchesPublicKey/PrivateKey=%s for an ID of class %s, spec says %s (an ID matches a key exactly when it was derived from it)" % (o["matches"], tag, e["matches"]))
         elif i["kind"] == "key":
             for api, v in o.items():
                 if api in ("i", "panic"):
@@ -314,13 +316,15 @@ def c32(ctx):
 
 def _envelope(ctx, prop):
     ctx.assumptions = ["ideal encryption and ideal secret sharing (Envelope.tla); real keys, payloads and contexts in the executor",
-                       "bound: 3 recipient keys, 1-2 arbitrary grants or 3 grants with 1-2 shares and key lists from {}, {0}, {1}, {0,1}; thresholds 0-3; overrides 0-5"]
+                       "bound: 3 recipient keys, 1-2 arbitrary grants or 3 grants with 1-2 shares and key lists from {}, {0}, {1}, {0,1}; thresholds 0-3; overrides 0-5; "
+                       "plus 1-2 grants over keypair lists in which the same public key occupies several indexes"]
     ctx.rule = ("configurations enumerated by TLC (26 688; C17 invariant checked on all of them), a seeded sample replayed: real BuildEnvelope, wire round trip, "
                 "UnlockEnvelope with every subset of the recipient keys plus an unrelated key; non-trivial = accepted configurations with >= 2 grants or an override")
     n = 2500 if ctx.tier == "quick" else 20000
 
     def select(cases):
-        return seeded_sample(ctx, cases, lambda c: False, n)
+        # every single-grant configuration in which one public key is listed at several keypair indexes is always included
+        return seeded_sample(ctx, cases, lambda c: c["cfg"]["own"] != [0, 1, 2] and len(c["cfg"]["g"]) == 1, n)
 
     def judge(c, o):
         cfg = c["cfg"]
